@@ -6,10 +6,14 @@
 EXTENDS Trees, TraceCore
 VARIABLE l
 
+\* documents of the depth family (run-length "segs" inputs) are judged by the iterative pushdown machine
+M == INSTANCE JSONMachine WITH MaxDepth <- GMaxDepth, cfg <- 0, inp <- 0
+
 Clauses(e) ==
-  LET s == e["in"]
-      v == Value(s)
-      ovf == v.ok /\ HasOverflow(v.tree)
+  LET s == Input(e)
+      deep == "segs" \in DOMAIN e
+      v == IF deep THEN LET m == M!Skip(s) IN [ok |-> m.ok, end |-> m.end, tree |-> <<"deep">>] ELSE Value(s)
+      ovf == ~deep /\ v.ok /\ HasOverflow(v.tree)
       direct == v.ok /\ ~ovf                          \* direct whole-value decoding succeeds
       chs == ToSet(e.choices)
       readsAll == chs \cap {1, 2, 3} = {}             \* every member read with a typed (value-producing) reader
